@@ -139,6 +139,33 @@ SPELL = {
 }
 
 
+def hostname_trace(ctx, cli, root):
+    """sys.hostname() with no capability and HOSTNAME unset, under strace: which files does the process open for it?"""
+    if not shutil.which("strace"):
+        ctx.notes.append("strace not available: sys.hostname() is covered by the translator's audit only")
+        return
+    d = os.path.join(root, "hostname")
+    os.makedirs(d, exist_ok=True)
+    open(os.path.join(d, "base.aelys"), "w").write("needs std.sys\nsys.platform()\n")
+    open(os.path.join(d, "host.aelys"), "w").write("needs std.sys\nsys.hostname()\n")
+    opened = {}
+    for name in ("base", "host"):
+        log = os.path.join(d, name + ".trace")
+        rc, out = vlib.sh(["env", "-u", "HOSTNAME", "-u", "COMPUTERNAME", "strace", "-f", "-e", "trace=open,openat", "-o", log,
+                           cli, "run", os.path.join(d, name + ".aelys")], timeout=120, cwd=d)
+        try:
+            opened[name] = set(re.findall(r'open(?:at)?\([^"]*"([^"]+)"', open(log).read()))
+        except OSError:
+            ctx.notes.append("strace produced no log: sys.hostname() is covered by the translator's audit only")
+            return
+    extra = sorted(p for p in opened["host"] - opened["base"] if not p.endswith("host.aelys"))
+    ctx.cov["files_opened_only_by_sys_hostname"] = extra
+    if extra:
+        ctx.violation("ungated-effect:sys::hostname:confirmed",
+                      f"with no capability at all and HOSTNAME unset, `needs std.sys; sys.hostname()` opens {extra} (strace)",
+                      {"program": "needs std.sys\nsys.hostname()", "opened": extra})
+
+
 def asm_text(glob, consts, code):
     t = ".version 1\n.function 0\n  .arity 0\n  .registers 3\n\n  .globals\n    0: \"%s\"\n\n" % glob
     if consts:
@@ -252,7 +279,10 @@ def native_cases(lib_fnv):
     add("version-unsatisfied-checksum-ok", [], "source", pol(["danger"], ok_ck, (0, 2, 0)), "unsatisfied-version")
     add("aasm-caps-denied", ["--deny-caps=danger"], "aasm", pol(["danger"]), "denied-capability")
     add("aasm-checksum-wrong", [], "aasm", pol([], "0000000000000000"), "different-checksum", ck_ok=False)
+    add("aasm-version-unsatisfied", [], "aasm", pol([], None, (9, 0, 0)), "unsatisfied-version")
+    add("aasm-no-manifest", [], "aasm", None, None)
     add("avbc-plain-caps-denied", ["--deny-caps=danger"], "avbc-plain", pol(["danger"]), "denied-capability")
+    add("avbc-plain-checksum-wrong", [], "avbc-plain", pol([], "0000000000000000"), "different-checksum", ck_ok=False)
     add("avbc-bundled-caps-denied", ["--deny-caps=danger"], "avbc-bundled", pol(["danger"]), "denied-capability", embedded=True)
     add("avbc-bundled-allowed", [], "avbc-bundled", pol(["danger"]), None, embedded=True)
     return C
@@ -350,9 +380,10 @@ def run(ctx):
         "the models of parse_vm_args / register_std_module / native-module decisions are the code: contract ties on every run",
     ]
     ctx.cov["refuted_lemmas"] = [
-        "version_checked_after_load_refuted: ELoaded precedes ERefusedVersion (the library is dlopen'ed, its constructors run, before the version is compared)",
-        "aasm_route_ignores_manifest_refuted: the .aasm route passes no manifest and a .avbc without embedded manifest ignores the project manifest: a denied module is loaded and run",
-        "lowering_caps_keeps_natives_refuted: std.fs/std.net natives registered under a permitting configuration stay callable after VM::set_capabilities lowers it",
+        "version_checked_after_load_refuted (OPEN, KF-C11-1): ELoaded precedes ERefusedVersion (the library is dlopen'ed, its constructors run, "
+        "before the version is compared) -- the version exists only inside the loaded descriptor, so checking it earlier is not a small repair",
+        "old_routes_ignored_manifest_witness (about the definition BEFORE the repair of KF-C11-2 only); now route_manifest_applies holds for every route",
+        "lowering_caps_keeps_natives_registered is still true but harmless: revoked_capability_is_refused (repair of KF-C11-3: per-call checks)",
         "deny_then_allow_order_dependent (recorded, not a violation): for the std bits the last of --deny-caps/--allow-caps wins",
     ]
     proved = ctx.prove("C11", extracted=["StdModules"])
@@ -462,10 +493,7 @@ def run(ctx):
                                       f"std.{module} registered under a permitting configuration, then VM::set_capabilities(none): {module}.{func} still succeeds ({cls}, effects {eff})",
                                       {"module": module, "native": func, "outcome": cls, "effects": eff})
                 elif f[0] == "N":
-                    if f[3] == "1":
-                        ctx.violation("ungated-effect:sys::hostname:confirmed",
-                                      "with no capability at all and HOSTNAME unset, sys.hostname() returns the contents of /etc/hostname (a file is opened and read)",
-                                      {"program": "needs std.sys\nsys.hostname()", "value": f[4]})
+                    ctx.cov["hostname_value_equals_etc_hostname"] = f[3] == "1"   # informational: see hostname_trace below
                 elif f[0] == "X":
                     ctx.broken.append("sentinel harness: " + line)
             total += na
@@ -483,6 +511,7 @@ def run(ctx):
         if not cli:
             ctx.broken.append("cli: aelys-cli does not build from the current tree")
         else:
+            hostname_trace(ctx, cli, root)
             run_cli_routes(ctx, cli, root, stats)
             lib = native_lib_build(ctx)
             if not lib:
@@ -503,7 +532,7 @@ def run(ctx):
             "(11 fs, 3 net, 4 exec) against a fresh scratch directory with a victim file and directory, a loopback listener and `touch sentinel`; "
             "denied => outcome must be CapabilityDenied or an unknown-name error and the directory snapshot, the listener and the sentinel untouched; "
             "allowed => the effect must be seen (sentinel sensitivity). cli: hand-written .aasm and assembled .avbc naming fs::write_text / "
-            "net::connect / sys::exec for 8 subsets x 3 spellings. native: 19 manifest/flag/route cases with a probe cdylib whose constructor and "
+            "net::connect / sys::exec for 8 subsets x 3 spellings. native: 22 manifest/flag/route cases with a probe cdylib whose constructor and "
             "export each drop a flag file. parse: all subsets x spellings + seeded flag lists incl. malformed; natives: registry after fixed + "
             "seeded request sequences per subset x spelling. distinct = see distinct_breakdown")
         ctx.cov["input_distribution"] = {"parse": "0-5 flags from 9 templates, ~35% malformed pieces", "natives": "1-5 requests, 25% name lists"}
